@@ -36,7 +36,7 @@ Ltac sx_red :=
     [eval_step evals_step evalkw_step ocall_step run_beh_step call_value_step call_method_step call_fun_step
      assign_step assigns_step exec_step handle_step exec_for_step exec_block_step
      aget aset const_val bind_params bind_params_aux fextra forallb option_map String.eqb Ascii.eqb Bool.eqb strmem existsb
-     mro_of exc_matches find_method drop_until before_dot append
+     mro_of exc_matches find_method lookup_fun drop_until before_dot append
      fst snd List.length Nat.eqb glob_get pvars pfuns pmro fparams fbody
      truthy val_is val_eqb get_attr subscript contains builtin_method iter_items exn module_dict
      negb andb orb hset].
